@@ -309,6 +309,11 @@ def sbytes_eq(a, b):
         return L.And(L.eq(a.n, b.n), *[L.eq(a.at(k), b.at(k)) for k in range(b.n)])
     if isinstance(a.n, int):
         return sbytes_eq(b, a)
+    mx = getattr(a, "maxn", None)
+    if mx is None:
+        mx = getattr(b, "maxn", None)
+    if mx is not None:
+        return L.And(a.n == b.n, *[z3.Implies(a.n > k, L.to_z3(L.eq(a.at(k), b.at(k)))) for k in range(mx)])
     return L.And(a.n == b.n, L.ForAllInt(0, a.n, lambda k: L.eq(a.at(k), b.at(k))))
 
 
@@ -494,7 +499,17 @@ def sbytes_slice(I, s, sl, node):
         at = s.at
     else:
         at = lambda k, lo=lo: s.at(lo + k)
-    return SBytes(ln, at, s.elem_range, s.kind)
+    out = SBytes(ln, at, s.elem_range, s.kind)
+    # remember the underlying buffer and offset: quantified facts about a slice are stated over the buffer's own
+    # indices, which gives the solver usable triggers (select(arr, p) instead of select(arr, lo + q))
+    out.root = getattr(s, "root", None) or s
+    out.off = getattr(s, "off", 0) + lo
+    # a slice s[a:a+w] with concrete w has at most w elements (used to avoid quantifiers for 1-byte peeks)
+    if sl.start is not None and sl.stop is not None and L.any_z3(sl.start, sl.stop):
+        w = z3.simplify(L.to_z3(sl.stop) - L.to_z3(sl.start))
+        if z3.is_int_value(w) and 0 <= w.as_long() <= 8:
+            out.maxn = w.as_long()
+    return out
 
 
 # ---------------------------------------------------------------------------
@@ -642,6 +657,9 @@ def call(I, f, args, kwargs, node, fr):
         if (getattr(fn, "__module__", "") or "").startswith("pdfminer"):
             key = "%s:%s" % (fn.__module__, fn.__qualname__)
             c = I.registry.get(key) if I.registry else None
+            stubs = getattr(I.current_contract, "stubs", None)
+            if stubs and key in stubs:
+                c = stubs[key]
             if c is not None:
                 return apply_contract(I, c, [f.__self__] + list(args), kwargs, node)
             raise SymError("bound repository method %s needs a contract" % key)
@@ -656,6 +674,9 @@ def call(I, f, args, kwargs, node, fr):
 
     mod = getattr(f, "__module__", None) or ""
     recv = getattr(f, "__self__", None)
+    if isinstance(recv, _re.Pattern) and not concrete(args, kwargs):
+        from . import methods
+        return methods.call_method(I, recv, f.__name__, args, kwargs, node)
     pure_fn = isinstance(f, (types.FunctionType, types.BuiltinFunctionType)) and mod.split(".")[0] in PURE_MODULES
     pure_meth = isinstance(f, (types.BuiltinMethodType, types.MethodType)) and isinstance(
         recv, (str, bytes, int, float, tuple, frozenset, _re.Pattern, _re.Match))
@@ -709,7 +730,8 @@ def call_repo_function(I, fobj, args, kwargs, node, fr):
     if stubs and key in stubs:
         I.contract_calls.add(key + " (stub)")
         return apply_contract(I, stubs[key], args, kwargs, node)
-    if c is not None and not c.inline and not (I.current_contract is c and I.depth == 0):
+    if c is not None and not c.inline and not (I.current_contract is c and I.depth == 0) \
+            and not getattr(I.current_contract, "inline_callees", False):
         I.contract_calls.add(key)
         return apply_contract(I, c, args, kwargs, node)
     fi = sx.function_of_object(fobj)
